@@ -15,8 +15,17 @@ import (
 	"strconv"
 	"strings"
 
+	"crypto/elliptic"
+
 	"elaverif/harness/hx"
 	"elaverif/harness/regnet"
+
+	"github.com/elastos/Elastos.ELA/account"
+	"github.com/elastos/Elastos.ELA/blockchain"
+	"github.com/elastos/Elastos.ELA/core/contract/program"
+	"github.com/elastos/Elastos.ELA/core/types/outputpayload"
+	"github.com/elastos/Elastos.ELA/crypto"
+	"github.com/elastos/Elastos.ELA/dpos/state"
 
 	"github.com/elastos/Elastos.ELA/common"
 	"github.com/elastos/Elastos.ELA/common/config"
@@ -36,12 +45,29 @@ const ChainHeight = 3
 // addresses (prefix 0x4B), M is a multi-sig one (0x12), every other letter a
 // standard one (0x21).
 func HashOf(letter byte) common.Uint168 {
+	// F, G, O are real single-signature accounts of the node, so that transactions spending from them
+	// can carry valid signatures and come out of ContextCheck with a nil error
+	if i := accountOf(letter); i > 0 && cur != nil {
+		return cur.node.Accounts[i].ProgramHash
+	}
 	var h common.Uint168
 	h[0] = PrefixOf(letter)
 	for i := 1; i < len(h); i++ {
 		h[i] = letter
 	}
 	return h
+}
+
+func accountOf(letter byte) int {
+	switch letter {
+	case 'F':
+		return 1
+	case 'G':
+		return 2
+	case 'O':
+		return 3
+	}
+	return 0
 }
 
 func PrefixOf(letter byte) byte {
@@ -57,6 +83,23 @@ func PrefixOf(letter byte) byte {
 type Entry struct {
 	Letter byte // 'n' = ProgramHash nil
 	Start  uint32
+}
+
+// LastNil tells whether the last ContextCheck returned a nil error (the transaction is valid in every
+// respect), LastErr the error text otherwise.
+var LastNil bool
+var LastErr string
+
+func arbiterKey() []byte { k, _ := common.HexStringToBytes("1234"); return k }
+
+func arbiterPub() []byte {
+	pub := new(crypto.PublicKey)
+	pub.X, pub.Y = elliptic.P256().ScalarBaseMult(arbiterKey())
+	b, err := pub.EncodePoint(true)
+	if err != nil {
+		panic("harness: " + err.Error())
+	}
+	return b
 }
 
 type Ctx struct {
@@ -119,7 +162,8 @@ func payloadOf(ty common2.TxType) interfaces.Payload {
 }
 
 // Run sends one transaction through the real ContextCheck.
-//   passed | cc frozen|wver|nottype|notlegacy|mixed | fz spend <i> | fz receive <i> | early <what>
+//
+//	passed | cc frozen|wver|nottype|notlegacy|mixed | fz spend <i> | fz receive <i> | early <what>
 func (c *Ctx) Run(ty, ver byte, h, f, r uint32, entries []Entry, ins, outs []byte) string {
 	n := c.node
 	params := *n.Params
@@ -146,13 +190,66 @@ func (c *Ctx) Run(ty, ver byte, h, f, r uint32, entries []Entry, ins, outs []byt
 	}
 	var outputs []*common2.Output
 	for _, l := range outs {
-		outputs = append(outputs, &common2.Output{AssetID: core.ELAAssetID, Value: 1000, ProgramHash: HashOf(l)})
+		outputs = append(outputs, &common2.Output{AssetID: core.ELAAssetID, Value: 1000, Type: common2.OTNone, Payload: &outputpayload.DefaultOutput{}, ProgramHash: HashOf(l)})
 	}
-	txn := transaction.CreateTransaction(common2.TxVersionDefault, common2.TxType(ty), ver, payloadOf(common2.TxType(ty)),
-		nil, inputs, outputs, 0, nil)
+	var txn interfaces.Transaction
+	if common2.TxType(ty) == common2.SideChainPow {
+		// "new style" side-chain PoW transaction: no inputs, zero-value outputs, payload signed by the on-duty
+		// cross-chain arbitrator (a key of ours, installed for the duration of the call).  Its special context
+		// check ends the context check (end == true).
+		for _, o := range outputs {
+			o.Value, o.Type, o.Payload = 0, common2.OTNone, &outputpayload.DefaultOutput{}
+		}
+		pd := &payload.SideChainPow{SideGenesisHash: common.Uint256{2, 2, 2}, BlockHeight: 10}
+		pd.SideBlockHash[0], pd.SideBlockHash[1], pd.SideBlockHash[2], pd.SideBlockHash[3] = byte(c.seq), byte(c.seq>>8), byte(c.seq>>16), byte(c.seq>>24)
+		txn = transaction.CreateTransaction(0, common2.SideChainPow, 0, pd, []*common2.Attribute{}, []*common2.Input{}, outputs, 0, []*program.Program{})
+		buf := new(bytes.Buffer)
+		pd.Serialize(buf, payload.SideChainPowVersion)
+		sig, err := crypto.Sign(arbiterKey(), buf.Bytes()[0:68])
+		if err != nil {
+			panic("harness: " + err.Error())
+		}
+		pd.Signature = sig
+		saved := blockchain.DefaultLedger
+		arb, err := state.NewOriginArbiter(arbiterPub())
+		if err != nil {
+			panic("harness: " + err.Error())
+		}
+		arbs := []state.ArbiterMember{arb}
+		blockchain.DefaultLedger = &blockchain.Ledger{
+			Arbitrators: &state.ArbitratorsMock{CurrentArbitrators: arbs, Snapshot: []*state.CheckPoint{{CurrentArbitrators: arbs}}, MajorityCount: 1},
+			Store:       saved.Store, Committee: saved.Committee, Blockchain: saved.Blockchain,
+		}
+		defer func() { blockchain.DefaultLedger = saved }()
+	} else {
+		txn = transaction.CreateTransaction(common2.TxVersion09, common2.TxType(ty), ver, payloadOf(common2.TxType(ty)),
+			[]*common2.Attribute{{Usage: common2.Nonce, Data: []byte{byte(c.seq), byte(c.seq >> 8), byte(c.seq >> 16)}}}, inputs, outputs, 0, nil)
+		// sign for every input owner that is one of the node's accounts
+		var programs []*program.Program
+		seen := map[int]bool{}
+		for _, l := range ins {
+			if i := accountOf(l); i > 0 && !seen[i] {
+				seen[i] = true
+				ac := n.Accounts[i]
+				pg, err := account.SignStandardTransaction(txn, &program.Program{Code: ac.RedeemScript},
+					map[common.Uint160]*account.Account{ac.ProgramHash.ToCodeHash(): ac})
+				if err != nil {
+					panic("harness: sign: " + err.Error())
+				}
+				programs = append(programs, pg)
+			}
+		}
+		txn.SetPrograms(programs)
+	}
 	para := &transaction.TransactionParameters{Transaction: txn, BlockHeight: h, TimeStamp: 0, Config: &params, BlockChain: n.Chain}
+	txn.SetParameters(para)
 	_, err := txn.ContextCheck(para)
 	n.Chain.UTXOCache.CleanCache()
+	LastNil = err == nil
+	LastErr = ""
+	if err != nil {
+		LastErr = err.Error()
+	}
 	if err == nil {
 		return "passed"
 	}
@@ -234,6 +331,18 @@ func Oracle(t []string, out string) *hx.Violation {
 	if out != "passed" {
 		return nil
 	}
+	v := oracle(t)
+	if v != nil {
+		if LastNil {
+			v.Detail += " — ContextCheck returned nil: the transaction is accepted"
+		} else {
+			v.Detail += " — neither policy check refused it (a later check said: " + LastErr + ")"
+		}
+	}
+	return v
+}
+
+func oracle(t []string) *hx.Violation {
 	ty, ver, h, f, r := u32(t[1]), u32(t[2]), u32(t[3]), u32(t[4]), u32(t[5])
 	ins, outs := letters(t[7]), letters(t[8])
 	for _, e := range ParseEntries(t[6]) {
@@ -284,6 +393,14 @@ func Gen(g *hx.Gen) {
 	if g.Quick() {
 		insW = []string{"-", "F", "O", "X", "FO", "XO", "XX", "OX", "GO"}
 		outsW = []string{"-", "F", "O", "OF", "G"}
+	}
+	// transactions whose special context check ends the context check (new-style SideChainPow): no inputs
+	for h := uint32(1); h <= 8; h++ {
+		for _, l := range lists {
+			for _, out := range []string{"F", "G", "O", "X", "OF", "GO"} {
+				g.Emit("ctx %d 0 %d 4294967295 4294967295 %s - %s", int(common2.SideChainPow), h, l, out)
+			}
+		}
 	}
 	for _, sh := range shapes {
 		for _, fr := range frs {
